@@ -13,16 +13,19 @@ PARTIAL = [
     "can be woken, or the entry has a live owner that holds its guard — whatever was cancelled or panicked before (waiter_has_live_owner, "
     "bp_waiter_has_live_owner, from entry_has_live_owner); every task that holds a guard and is not waiting has an enabled step "
     "(running_task_can_step); cancel is enabled at every await (cancel_always_enabled); a task in `caught` can always unwind "
-    "(caught_can_resume). Missing for the full `no_stall` (def C05_full_statement): acyclicity of the waits-for relation between live "
+    "(caught_can_resume); the wake-up is part of the drop glue: right after `cancel t` outside a guarded block (cancel_wakes_waiters) and "
+    "right after the unwinding passes the owning frame (unwind_wakes_waiters) every other task parked on an entry of t can be woken. Missing for the full `no_stall` (def C05_full_statement): acyclicity of the waits-for relation between live "
     "tasks (the static-rank argument, C02's deadlock-freedom) and a variant function that bounds every run",
-    "cancel_restores_asis_partial: for the code as it is (every configuration) the quiescent invariant is proved without its batch "
-    "clause; the batch clause and the phase discipline (session_excludes_queries) hold for the repaired configurations "
-    "(cancel_restores_of_repairs needs f11, f12; session_excludes_queries needs f40) and are refuted for the code as it is by the "
-    "witnesses f11_asis_aborts, f12_original_aborts, f40_asis_session_overlaps_publication (findings F11, F12, F40)",
+    "cancel_restores / session_excludes_queries are theorems of the repaired configuration (f11 f12 f40 = 111), which is the code "
+    "now that F11, F12, F40 are fixed in /repo (the plugin derives the bits from known_findings.json and the traces of the real code are "
+    "validated against that configuration); for the original orders the model keeps cancel_restores_asis_partial (Q without its batch "
+    "clause, every configuration) and the refutations f11_asis_aborts, f12_original_aborts, f40_asis_session_overlaps_publication",
     "Q's clause 'every registered callee of a live computation belongs to a read in progress' is modelled (regs, armed undo, "
     "unregAt / defuseAt) and validated against the code item by item in the drop-glue comparison, but not stated as an invariant theorem",
-    "F41 (a dropped set_input whose continuation runs after commit panics) is outside the model: session calls are atomic model steps; "
-    "it is found and pinned by the harness only",
+    "F41 (a dropped set_input whose continuation ran after commit panicked; fixed) is outside the model: session calls are atomic "
+    "model steps; it is pinned by the harness only (corpus C05-f41-*)",
+    "waiters of a backward-projection entry have no hook (`get_backward_projection_lock_guard`): their wake-up after a cancel is judged by "
+    "the oracle (termination of the other callers) only, not by the trace tie",
 ]
 ASSUMPTIONS = [
     "acyclic programs: no strongly connected component is in progress (with `is_in_scc` the engine replaces the panic by the SCC value; C06)",
@@ -44,12 +47,20 @@ TRUSTED_EXTRA = [
     "the harness decides *where* a future may be dropped: exactly at the `verif_pause!` points it owns (each adjacent to a real await of the "
     "code); a `hold` run keeps the spawned continuation of a guarded block suspended at its first await until the caller has committed one "
     "more session (a schedule tokio permits: a spawned task has no deadline)",
+    "the model has no separate notification (`wake` is enabled iff the entry is gone); the tie for `notify_waiters()` is made from the "
+    "waiter's side: hooks `cl.wait` / `cl.woken` around the two `Notified` awaits (`computing_lock_guard`, `exit_scc`) of the other callers "
+    "the harness starts; the driver wakes every parked caller in the model when the model removes the entry and requires the code's "
+    "`cl.woken` before the next `settled` / `end` marker",
 ]
 
 RULE = ("one evaluation = one generated history (3-8 keys, inputs / normal / firewall / projection / external nodes, conditional and "
         "unordered reads; sessions with set_input / world+refresh; rounds) replayed on a fresh engine with ONE fault at one target op: "
         "the target's future dropped at pause point i (all points if <= 24 (thorough 64), else a seeded sample containing the first of every "
-        "label), the twin run that keeps a detached guarded continuation suspended across the next commit, or one executor panicking; then "
+        "label), the twin run that keeps a detached guarded continuation suspended across the next commit, the twin run with OTHER CALLERS IN "
+        "FLIGHT (round targets: when the cut point is reached, up to four more tasks are started in a seeded order that ask for the same roots, for a "
+        "key whose computing entry the target owns, for a dependent of such a key, for an owned firewall; they run until parked on the "
+        "target's entries, then the target is dropped; every one of them must complete with the from-scratch value), or one executor "
+        "panicking (alone, and with such callers parked on the entries of the panicking task); then "
         "the cut-short op again, the rest of the history, a final all-keys round, shutdown; variants: InMemoryStorageEngine and "
         "DbBacked<in-memory KvDatabase> (write-behind; re-open and query after shutdown); every case in a child process. Oracle: "
         "from-scratch values (failures that the same history shows without the fault are counted separately and not attributed to C05), "
